@@ -22,6 +22,7 @@ from specs.dbmodel import S1, S2
 R = 10
 
 FAILED_ROW = dict(is_generated=True, is_override=False, checked_runid=None, changed_runid=None, failed_runid=R, stamp=None, csum=None)
+CSUM_ROW = dict(is_generated=True, is_override=False, checked_runid=None, changed_runid=5, failed_runid=None, stamp=tuple(S1), csum=tuple(b'abc'))
 CLEAN_ROW = dict(is_generated=True, is_override=False, checked_runid=None, changed_runid=5, failed_runid=None, stamp=tuple(S1), csum=None)
 
 ASSUMPTIONS = [
@@ -38,7 +39,8 @@ ASSUMPTIONS = [
 
 def C(name, props, **kw):
     d = dict(name=name, props=set(props.split()), targets=[b'a', b'b'], flavour='redo', keep_going=False, top_level=2, pipe0=1,
-             others0=0, prior=None, other_locks=None, sub_target=None, shuffle=False, no_do=(), select_budget=0, race=())
+             others0=0, prior=None, other_locks=None, sub_target=None, shuffle=False, no_do=(), select_budget=0, race=(), deps=(),
+             free_at_try=None)
     d.update(kw)
     return d
 
@@ -75,6 +77,14 @@ def configs(thorough):
           race=(b'b',)),
         C('ifchange b: the holder of b finishes between the row read and the lock attempt', 'C06', targets=[b'b'], flavour='ifchange',
           top_level=0, pipe0=1, other_locks={b'b': 'built'}, race=(b'b',)),
+        C('redo a b: the holder of b has finished when the second phase first tries the lock', 'C06 C09', other_locks={b'b': 'built'},
+          free_at_try={b'b': 2}),
+        C('ifchange t: t is up to date but its checksummed dependency s looks changed (redo-unlocked)', 'C06 C07 C08 C09', flavour='ifchange',
+          targets=[b't'], top_level=0, pipe0=1, prior={b't': (CLEAN_ROW, tuple(S1)), b's': (CSUM_ROW, tuple(S2))}, deps=((b't', b's', b'm'),)),
+        C('ifchange t u: both wait for the checksummed dependency s (redo-unlocked)', 'C06 C07 C09', flavour='ifchange',
+          targets=[b't', b'u'], top_level=0, pipe0=1,
+          prior={b't': (CLEAN_ROW, tuple(S1)), b'u': (CLEAN_ROW, tuple(S1)), b's': (CSUM_ROW, tuple(S2))},
+          deps=((b't', b's', b'm'), (b'u', b's', b'm'))),
         C('ifchange a b inside top.do (redo-log may hold the log lock)', 'C08 C09', flavour='ifchange', top_level=0, pipe0=0, others0=1,
           sub_target=b'top'),
     ]
@@ -154,7 +164,8 @@ def run_config(chk, pid, cfg):
         w, sref, root = schedmodel.setup(eng, targets=cfg['targets'], keep_going=cfg['keep_going'], top_level=cfg['top_level'],
                                          pipe0=cfg['pipe0'], others0=cfg['others0'], runid=R, should_build=sb, max_wakeups=12,
                                          prior=cfg['prior'], other_locks=cfg['other_locks'], sub_target=cfg['sub_target'],
-                                         shuffle=cfg['shuffle'], no_do=cfg['no_do'], race=cfg['race'])
+                                         shuffle=cfg['shuffle'], no_do=cfg['no_do'], race=cfg['race'], deps=cfg['deps'],
+                                         free_at_try=cfg['free_at_try'])
         w.select_budget = cfg['select_budget']
         st.update(w=w, hang=None, res=None, r2=None, phase='run')
         try:
@@ -177,7 +188,9 @@ def run_config(chk, pid, cfg):
         F = facts(eng, w, cfg)
         wit = {'config': cfg['name'], 'flavour': cfg['flavour'], 'targets': [t.decode('latin-1') for t in cfg['targets']],
                'keep_going': cfg['keep_going'], 'top_level': cfg['top_level'], 'pipe0': cfg['pipe0'], 'others0': cfg['others0'],
-               'statuses': F['status_by_target'], 'events': F['digest'], 'scenario': scenario_key(cfg, F)}
+               'statuses': F['status_by_target'], 'events': F['digest'], 'scenario': scenario_key(cfg, F),
+               'other_locks': {k.decode('latin-1'): v for k, v in (cfg['other_locks'] or {}).items()},
+               'variant': 'locked' if cfg['other_locks'] else ('unlocked-job' if cfg['deps'] else 'plain')}
         chk.goal('sched: two jobs run at the same time', w.max_running >= 2)
         chk.goal('sched: a job fails', any(v == 'fail' for v in F['status_by_target'].values()))
         chk.goal('sched: run() returns Ok', outcome == 'ok' and val[0] is not None and val[0].var == 'Ok')
@@ -220,7 +233,8 @@ def facts(eng, w, cfg):
                 starts_after_failure.append(d['target'])
         elif k == 'fork':
             fid = name_to_fid.get(cur)
-            f = {'idx': i, 'pid': d['pid'], 'target': (cur or b'?').decode('latin-1'), 'fid': fid, 'held': fid in held}
+            f = {'idx': i, 'pid': d['pid'], 'target': (cur or b'?').decode('latin-1'), 'fid': fid, 'held': fid in held,
+                 'kind': d.get('job_kind', 'script')}
             forks.append(f)
             by_pid[d['pid']] = f
             if fid is not None:
@@ -245,7 +259,8 @@ def facts(eng, w, cfg):
             sc = pid_status.get(d['pid'])
             digest.append('reaped(%s:%s)' % (f['target'] if f else d['pid'], sc))
             if f and f['fid'] is not None and jobstate.get(f['fid']) == 'started':
-                jobstate[f['fid']] = 'reaped'
+                # redo-unlocked records the result in its own process, under the lock this process keeps for it
+                jobstate[f['fid']] = 'reaped' if f['kind'] == 'script' else 'committed'
             if sc == 'fail' and first_failure_known is None:
                 first_failure_known = i
         elif k == 'sql-update-file':
@@ -361,7 +376,8 @@ def judge_c06(chk, eng, cfg, st, F, outcome, val, wit):
                 'what': 'the lock of file id %s is released while its job is only %s: another process may decide about the target before '
                         'the result is committed' % (fid, js)}
     if any(v == 'committed' for v in F['jobstate'].values()):
-        chk.goal('C06: a job is reaped, recorded, committed and only then unlocked')
+        chk.goal('C06: a job is reaped, recorded, committed and only then unlocked', any(f['kind'] == 'script' for f in F['forks']))
+        chk.goal('C06: a redo-unlocked job keeps the target locked until it is reaped', any(f['kind'] == 'unlocked' for f in F['forks']))
     # a lock obtained after another redo held it: the decision uses the row as that process left it
     for name, o in (cfg['other_locks'] or {}).items():
         nm = name.decode('latin-1')
@@ -412,6 +428,11 @@ def judge_c07(chk, eng, cfg, st, F, outcome, val, wit):
     # outcome = outcome of the serial build (stated for runs in which nothing is cut short: all scripts succeed, or --keep-going)
     sts = F['status_by_target']
     allok = all(s == 'ok' for s in sts.values())
+    # "at most once however many dependents request it" rests on the lock being kept until the result is recorded and on the
+    # re-evaluation under the lock: the same event-order obligations as C06
+    bad = judge_c06(chk, eng, cfg, st, F, outcome, val, wit)
+    if bad:
+        return bad
     if cfg['other_locks'] or cfg['prior'] or cfg['no_do'] or any(not t for t in cfg['targets']):
         return None
     if not (allok or cfg['keep_going']):
@@ -531,6 +552,38 @@ REPLAYS = {
         'i=0; while [ $i -lt 40 ]; do i=$((i+1)); rm -rf .redo a b trace; redo --no-log -j1 a b >/dev/null 2>&1; rc=$?; '
         'if grep -q "^b$" trace 2>/dev/null; then echo "REPRODUCED: run $i of redo -j1 a b: a.do exited 1 (exit status $rc) and b.do was started afterwards"; exit 0; fi; done; '
         'echo "not reproduced in $i runs"', 'REPRODUCED'),
+    # the failure happens while the command waits for its running jobs at the start of the second phase; a target that another
+    # redo holds is still waited for and built afterwards
+    'sched:started-after-failure/locked': (
+        {'a.do': 'sleep 1\nexit 1\n',
+         'b.do': 'echo b >> trace\nwhile [ -e hold ]; do sleep 0.1; done\necho b\n'},
+        'touch hold; redo --no-log b >helper.log 2>&1 & sleep 0.5; (redo --no-log -j2 a b >main.log 2>&1; echo "main exit $?" >>main.log) & '
+        'sleep 2.5; rm -f hold; wait; n=$(grep -c "^b$" trace); tail -3 main.log; '
+        'if [ "$n" -ge 2 ]; then echo "REPRODUCED: redo -j2 a b (a.do fails after 1 s, b locked by another redo until 2.5 s): b.do was run $n times - the command went on to wait for and build b after the failure of a was known"; else echo "b.do ran $n time(s)"; fi',
+        'REPRODUCED'),
+    # a second request for x (same run) arrives while x is being built and x.do then fails
+    'sched:rebuilt-after-other-failed': (
+        {'x.do': 'echo x >> trace\nsleep 1.5\nexit 1\n', 'p.do': 'redo x\n',
+         'q.do': 'while [ ! -e trace ]; do sleep 0.1; done\nredo x\n'},
+        'timeout 60 redo --no-log -j4 p q >out.log 2>&1; rc=$?; n=$(grep -c "^x$" trace); grep -c "exit" out.log >/dev/null; '
+        'if [ "$n" -ge 2 ]; then echo "REPRODUCED: redo -j4 p q (p.do: redo x; q.do: redo x while x is being built; x.do fails): x.do was executed $n times in one run, exit $rc"; else echo "x.do ran $n time(s), exit $rc"; fi',
+        'REPRODUCED'),
+    'sched:failure-not-propagated/locked': (
+        {'x.do': 'echo x >> trace\nsleep 1.5\nexit 1\n', 'p.do': 'redo x\n',
+         'q.do': 'while [ ! -e trace ]; do sleep 0.1; done\nredo x\n'},
+        'timeout 60 redo --no-log -j4 p q >out.log 2>&1; rc=$?; n=$(grep -c "^x$" trace); '
+        'if [ "$n" -ge 2 ]; then echo "REPRODUCED: redo -j4 p q (p.do: redo x; q.do: redo x while x is being built; x.do fails): the second requester did not report the failure recorded by the first but ran x.do again ($n executions), exit $rc"; else echo "x.do ran $n time(s), exit $rc"; fi',
+        'REPRODUCED'),
+    # the out-of-band path (redo-unlocked): the caller must keep the target locked until the child is done
+    'sched:unlock-before-result-committed/unlocked-job': (
+        {'dep.do': 'redo-always\nwhile [ -e hold ]; do sleep 0.1; done\ncat ver\ncat ver | redo-stamp\n',
+         't.do': 'redo-ifchange dep\nmkdir t.running 2>/dev/null || echo overlap >> overlaps\necho t >> trace\nsleep 2\nrmdir t.running 2>/dev/null\ncat dep\n'},
+        'echo v1 > ver; redo --no-log t >first.log 2>&1 || { cat first.log; echo "setup build failed"; exit 0; }; rm -f trace overlaps; '
+        'echo v2 > ver; touch hold; (redo-ifchange t >p1.log 2>&1; echo "p1 exit $?" >>p1.log) & sleep 0.7; '
+        '(redo-ifchange t >p2.log 2>&1; echo "p2 exit $?" >>p2.log) & sleep 1; rm -f hold; wait; '
+        'n=$(grep -c "^t$" trace 2>/dev/null); tail -2 p1.log p2.log | cut -c1-160; '
+        'if [ -e overlaps ] || [ "${n:-0}" -ge 2 ]; then echo "REPRODUCED: two redo-ifchange t while the checksummed dependency is being rebuilt out of band: t.do executions=$n, overlapping=$( [ -e overlaps ] && echo yes || echo no )"; else echo "t.do ran ${n:-0} time(s), no overlap"; fi',
+        'REPRODUCED'),
     'sched:keep-going-not-built': (
         {'a.do': 'exit 1\n', 'b.do': TRACE_DO % ('b', 'b'),
          'top.do': 'redo-ifchange a || true\nredo-ifchange a b || echo "second redo-ifchange: exit $?" >&2\n'},
@@ -552,8 +605,12 @@ REPLAYS = {
 def replay_cand(chk, scn, c):
     """real binaries; schedules that depend on the pseudo-random polling order of futures::select! are retried"""
     role = c.get('role', '')
-    for prefix, (files, script, needle) in ((k, (v[0], v[1], v[2])) for k, v in REPLAYS.items()):
-        if role.startswith(prefix):
+    variant = (c.get('witness') or {}).get('variant', 'plain')
+    keys = sorted(REPLAYS, key=lambda k: -len(k))
+    for prefix in keys:
+        files, script, needle = REPLAYS[prefix]
+        base, _, var = prefix.partition('/')
+        if role.startswith(base) and (not var or var == variant):
             rc, out = scn.run(files, script, timeout=900)
             c['native_scenario'] = {'files': files, 'script': script}
             return (needle in out), 'real binaries: ' + out.strip()[-600:]
